@@ -50,14 +50,15 @@ CONTRACTS += [
              note='the constructor registered for (BooleanModel, en-us), applied to an arbitrary options value'),
 ]
 
-_EXT = lambda **v: Rec(CX + 'ChoiceExtractor', dict(config=Config(values=dict(dict(token_regex=Const('tok')), **v))))
+TOKRX = '[^\\w\\d]'       # EnglishChoice.TokenizerRegex
+_EXT = lambda **v: Rec(CX + 'ChoiceExtractor', dict(config=Config(values=dict(dict(token_regex=Const(TOKRX)), **v))))
 CONTRACTS += [
     Contract('c20.env.is_emoji', RT + 'utilities.py::StringUtility.is_emoji', ['C20'], returns=Bool(),
              params=dict(letter=Str()), ensures=[('is-a-predicate-of-the-character', 'result == char_pred("isemoji", letter)')],
              assumed='the emoji package decides is_emoji; it is a function of the character'),
     Contract('c20.tokenize', CX + 'ChoiceExtractor.__tokenize', ['C20'], modular=['id:c20.env.is_emoji'],
              params=dict(self=_EXT(), source=Str()),
-             regex_env={'tok': {'char_pred': 'issep'}},
+             regex_env={TOKRX: {'char_pred': 'issep'}},
              loops={0: LoopSpec(index='k', types={'tokens': Arr('str')}, ghost={'own': Arr('int')},
                                 invariant=['0 <= k and k <= len(source)',
                                            'forall(lambda p: implies(char_pred("isemoji", source[p]), 0 <= own[p] and own[p] < len(tokens) and '
@@ -66,6 +67,7 @@ CONTRACTS += [
              ensures=[('every-emoji-character-is-a-token-of-its-own',
                        'forall(lambda p: implies(char_pred("isemoji", source[p]), 0 <= own[p] and own[p] < len(result) and '
                        'result[own[p]] == source[p]), 0, len(source))')],
+             native_ensures=['all((not char_pred("isemoji", source[p])) or (source[p] in result) for p in range(len(source)))'],
              note='for every string; which characters are emoji and which are separators are uninterpreted predicates; '
                   'grapheme.slice(s) is taken to return s'),
 ]
